@@ -6,6 +6,7 @@ import (
 	"context"
 	"fmt"
 	"math/rand"
+	"os"
 	"sort"
 	"sync/atomic"
 	"testing"
@@ -46,6 +47,9 @@ func shapes(thorough bool) []Shape {
 	}
 	var out []Shape
 	for _, be := range []string{uni.Mock, uni.Uni} {
+		if only := os.Getenv("VERIF_CRASH_BACKEND"); only != "" && only != be {
+			continue // the enumeration is split by back-end into units that run side by side
+		}
 		for _, pess := range []bool{false, true} {
 			modes := [][2]bool{{false, false}}
 			if be == uni.Uni {
@@ -282,6 +286,9 @@ type fault struct {
 type stickyFault struct {
 	f      fault
 	sticky *errorpb.Error
+	// cleanupLost: from the fault on, none of the victim's clean-up requests (BatchRollback, PessimisticRollback)
+	// reaches the store either - the answer Commit gives must be true by itself, not made true by the clean-up
+	cleanupLost bool
 }
 
 // stickyFaults: a request/response is lost and the region answers nothing but region errors from then on.
@@ -296,7 +303,12 @@ func stickyFaults(sh Shape) []stickyFault {
 	} {
 		for _, f := range []fault{dropResponse(sh), faults(sh)[0]} {
 			f.name += "+then-only-" + se.name
-			out = append(out, stickyFault{f, se.e})
+			out = append(out, stickyFault{f: f, sticky: se.e})
+			if se.name == "region-not-found" {
+				g := f
+				g.name += "+cleanup-lost"
+				out = append(out, stickyFault{f: g, sticky: se.e, cleanupLost: true})
+			}
 		}
 	}
 	return out
@@ -405,10 +417,11 @@ func isCommitPoint(sh Shape, pt Point, primary string, asyncEffective bool) bool
 }
 
 type injected struct {
-	pt     Point
-	f      fault
-	fired  atomic.Bool
-	sticky *errorpb.Error
+	pt          Point
+	f           fault
+	fired       atomic.Bool
+	sticky      *errorpb.Error
+	cleanupLost bool
 }
 
 func runFaults(r, tr *vrep.Report, sh Shape, primary string, plan []*injected) {
@@ -426,6 +439,9 @@ func runFaults(r, tr *vrep.Report, sh Shape, primary string, plan []*injected) {
 		s := Sig(c)
 		n := m.Count(c, s)
 		for _, in := range plan {
+			if in.cleanupLost && in.fired.Load() && (c.Cmd == tikvrpc.CmdBatchRollback || c.Cmd == tikvrpc.CmdPessimisticRollback) {
+				return uni.Action{Kind: uni.DropReq}
+			}
 			if in.sticky != nil && in.fired.Load() && c.Cmd == in.pt.Cmd {
 				select {
 				case <-commitReturned:
@@ -585,7 +601,7 @@ func TestVerifC03(t *testing.T) {
 			}
 			if pt.Cmd == tikvrpc.CmdCommit || pt.Cmd == tikvrpc.CmdPrewrite {
 				for _, sf := range stickyFaults(sh) {
-					runFaults(r, tr, sh, primary, []*injected{{pt: pt, f: sf.f, sticky: sf.sticky}})
+					runFaults(r, tr, sh, primary, []*injected{{pt: pt, f: sf.f, sticky: sf.sticky, cleanupLost: sf.cleanupLost}})
 					r.Count("sticky_fault_executions", 1)
 				}
 			}
